@@ -4,6 +4,7 @@ import (
 	"encoding/json"
 	"errors"
 	"fmt"
+	"io"
 	"strings"
 	"sync/atomic"
 	"time"
@@ -27,11 +28,12 @@ type c16Case struct {
 	Reject  bool    `json:"reject"`
 	Mode    srvMode `json:"mode"`
 	NRcpt   int     `json:"nrcpt"`
-	WT      bool    `json:"wt"`      // Server.WriteTimeout set (ReadTimeout unset) and "time passes" during the body: any read deadline the server armed is fired
-	Second  bool    `json:"second"`  // a second message with other recipients follows on the same connection
-	Slow    bool    `json:"slow"`    // the server's verdict is slow: while Close waits for it, the deadline armed on the client's connection must be the submission timeout, not the (much shorter) command timeout
-	Reclose bool    `json:"reclose"` // (with Second) the first message's writer is closed once more while the second message's writer is open
-	CT      bool    `json:"ct"`      // "time passes" on the client side while the body is being written: any deadline the client left armed on its connection is fired
+	WT      bool    `json:"wt"`           // Server.WriteTimeout set (ReadTimeout unset) and "time passes" during the body: any read deadline the server armed is fired
+	Second  bool    `json:"second"`       // a second message with other recipients follows on the same connection
+	Slow    bool    `json:"slow"`         // the server's verdict is slow: while Close waits for it, the deadline armed on the client's connection must be the submission timeout, not the (much shorter) command timeout
+	Reclose bool    `json:"reclose"`      // (with Second) the first message's writer is closed once more while the second message's writer is open
+	ViaSM   bool    `json:"via_sendmail"` // SMTP only: the first message goes through Client.SendMail (Mail, Rcpt..., Data, io.Copy from a reader that yields the partition, Close)
+	CT      bool    `json:"ct"`           // "time passes" on the client side while the body is being written: any deadline the client left armed on its connection is fired
 }
 
 func init() {
@@ -67,7 +69,7 @@ func c16Run(ctx *core.Ctx) {
 			}
 			for pi, pt := range parts {
 				c := c16Case{Body: body, BodyQ: fmt.Sprintf("%q", body), Part: pt, Reject: (idx+pi)%2 == 0, Mode: mode, NRcpt: 1 + idx%3,
-					WT: (idx+pi)%5 == 2, Second: (idx+pi)%4 == 1, CT: (idx+pi)%3 == 1, Slow: (idx+pi)%7 == 3, Reclose: (idx+pi)%8 == 1}
+					WT: (idx+pi)%5 == 2, Second: (idx+pi)%4 == 1, CT: (idx+pi)%3 == 1, Slow: (idx+pi)%7 == 3, Reclose: (idx+pi)%8 == 1, ViaSM: mode == modeSMTP && (idx+pi)%6 == 4}
 				switch pt {
 				case "split":
 					if len(body) < 2 {
@@ -120,7 +122,7 @@ func c16Exec(ctx *core.Ctx, c c16Case) {
 			nontrivial = true
 		}
 	}
-	ctx.Eval(fmt.Sprintf("%q|%s|%d|%v|%v|%s|%d|%v|%v|%v", c.Body, c.Part, c.At, c.Cuts, c.Reject, c.Mode, c.NRcpt, c.WT, c.Second, c.CT)+fmt.Sprint("|", c.Slow, c.Reclose), nontrivial)
+	ctx.Eval(fmt.Sprintf("%q|%s|%d|%v|%v|%s|%d|%v|%v|%v", c.Body, c.Part, c.At, c.Cuts, c.Reject, c.Mode, c.NRcpt, c.WT, c.Second, c.CT)+fmt.Sprint("|", c.Slow, c.Reclose, c.ViaSM), nontrivial)
 	rig := newRig(c.Mode, func(s *smtp.Server) {
 		if c.WT {
 			s.WriteTimeout = time.Hour // virtual clock: never expires by itself
@@ -156,14 +158,19 @@ func c16Exec(ctx *core.Ctx, c c16Case) {
 	}
 	from := "sender16@x.test"
 	var rcpts []string
-	if err := cl.Mail(from, nil); err != nil {
-		done()
-		fail("C16:mail", "Mail failed: "+err.Error())
-		return
+	if !c.ViaSM {
+		if err := cl.Mail(from, nil); err != nil {
+			done()
+			fail("C16:mail", "Mail failed: "+err.Error())
+			return
+		}
 	}
 	for i := 0; i < c.NRcpt; i++ {
 		rc := fmt.Sprintf("rcpt16-%d@x.test", i)
 		rcpts = append(rcpts, rc)
+		if c.ViaSM {
+			continue
+		}
 		if err := cl.Rcpt(rc, nil); err != nil {
 			done()
 			fail("C16:rcpt", "Rcpt failed: "+err.Error())
@@ -180,7 +187,9 @@ func c16Exec(ctx *core.Ctx, c c16Case) {
 		Close() error
 	}
 	var err error
-	if c.Mode.lmtp() {
+	if c.ViaSM {
+		w = &c16SendMailWriter{cl: cl, from: from, to: rcpts}
+	} else if c.Mode.lmtp() {
 		w, err = cl.LMTPData(func(rcpt string, status *smtp.SMTPError) { statuses = append(statuses, st{rcpt, status}) })
 	} else {
 		w, err = cl.Data()
@@ -230,9 +239,18 @@ func c16Exec(ctx *core.Ctx, c c16Case) {
 		cl.CommandTimeout, cl.SubmissionTimeout = time.Minute, 100*time.Hour
 		cd := make(chan error, 1)
 		go func() { cd <- w.Close() }()
-		gate.WaitParked("verdict")
+		parked := make(chan struct{})
+		go func() { gate.WaitParked("verdict"); close(parked) }()
+		isParked := false
+		select {
+		case <-parked:
+			isParked = true
+		case err := <-cd:
+			cd <- err // Close returned without the backend ever holding its verdict back
+		case <-time.After(wire.Watchdog):
+		}
 		// the client now waits for the final reply (parked in Read; nothing in flight)
-		if idle, werr := p.SrvEnd.WaitPeerIdle(wire.Watchdog); werr == nil && idle {
+		if idle, werr := p.SrvEnd.WaitPeerIdle(wire.Watchdog); isParked && werr == nil && idle {
 			if t, ok := p.Raw.ReadDeadlineValue(); ok {
 				ctx.Add("client_deadlines_inspected_while_waiting_for_the_verdict", 1)
 				if left := time.Until(t); left < 50*time.Hour {
@@ -430,4 +448,42 @@ func c16Exec(ctx *core.Ctx, c c16Case) {
 	if ctx.WantSample(cls) {
 		ctx.Sample(cls, map[string]any{"body": fmt.Sprintf("%q", c.Body), "partition": c.Part, "writes": len(segs), "reject": c.Reject, "backend_read": fmt.Sprintf("%q", des[0].A), "close": fmt.Sprint(closeErr), "second_close": fmt.Sprint(closeErr2)})
 	}
+}
+
+// c16SendMailWriter lets the Client.SendMail path share the driver of the Data path: Write only
+// collects the partition, the first Close runs SendMail with a reader that yields exactly those
+// pieces, a later Close is a local error (there is no writer to close twice on this path).
+type c16SendMailWriter struct {
+	cl   *smtp.Client
+	from string
+	to   []string
+	segs [][]byte
+	ran  bool
+}
+
+func (w *c16SendMailWriter) Write(b []byte) (int, error) {
+	w.segs = append(w.segs, append([]byte{}, b...))
+	return len(b), nil
+}
+
+func (w *c16SendMailWriter) Close() error {
+	if w.ran {
+		return errors.New("harness: SendMail has already run")
+	}
+	w.ran = true
+	return w.cl.SendMail(w.from, w.to, &c16SegReader{segs: w.segs})
+}
+
+type c16SegReader struct{ segs [][]byte }
+
+func (r *c16SegReader) Read(p []byte) (int, error) {
+	for len(r.segs) > 0 && len(r.segs[0]) == 0 {
+		r.segs = r.segs[1:]
+	}
+	if len(r.segs) == 0 {
+		return 0, io.EOF
+	}
+	n := copy(p, r.segs[0])
+	r.segs[0] = r.segs[0][n:]
+	return n, nil
 }
